@@ -68,6 +68,54 @@ theorem gen_precedence_standard (H : Heap) (g : GClass) (hb : g.baseClass = some
 
 example : ({ name := 2, supers := [1, 0] } : GClass).baseClass = some Sym.standardObject := rfl
 
+/-- gen_initform_most_specific: after a successful merge the initform table of the class object
+    holds, for every slot, the most specific initform — the one the hand model's `initformFor` finds
+    walking the slot definitions of the class and then of its inheritance list in precedence order
+    (slot maps keyed by slot name, one entry per name). -/
+theorem gen_initform_most_specific (H : Heap) (g : GClass) (hr : g.supers.all (readyIn H) = true)
+    (hown : SlotMapWF g.slotDefs)
+    (hinh : ∀ k ∈ mergedInherit H g.supers, SlotMapWF (H.slotDefsOf k)) (x : Name) :
+    ((mergeSupers.body H g).state.initForms.get? x).bind (·.initform) =
+      initformFor (absSlots g.slotDefs ++
+        (mergedInherit H g.supers).flatMap (fun k => absSlots (H.slotDefsOf k))) x := by
+  rw [mergeSupers_spec, if_pos hr]
+  simp only [Ctl.state, mergedClass]
+  exact initFormsOf_get? H g.slotDefs _ hown hinh x
+
+-- class 2 (own slot 0 without initform) below 1 (slot 0 :initform 11) below 0 (slot 0 :initform 1):
+-- the table holds 11, the most specific initform
+example : (((mergeSupers.body
+    [{ name := 0, supers := [], slotDefs := [(0, { name := 0, initargs := [], initform := some 1 })],
+       precedence := [Sym.cls 0, Sym.standardObject, Sym.t] },
+     { name := 1, supers := [0], slotDefs := [(0, { name := 0, initargs := [], initform := some 11 })],
+       inherit := [0], precedence := [Sym.cls 1, Sym.cls 0, Sym.standardObject, Sym.t] }]
+    { name := 2, supers := [1], slotDefs := [(0, { name := 0, initargs := [], initform := none })] }).state.initForms.get? 0).bind
+      (·.initform)) = some 11 := by decide
+
+/-! ## typep and the hierarchy of an instance use the class object's precedence list -/
+
+theorem gen_isA (T : GClass) (o : GObj) (k : Sym) : IsA T o k = decide (k ∈ T.precedence) := isA_eq T o k
+
+theorem gen_hierarchy (T : GClass) (o : GObj) : Hierarchy T o = T.precedence := rfl
+
+/-- for an instance of a merged class `c` with inheritance list `l`, `obj.IsA(k)` for a class name
+    `k` is the model's `isA` on the model's precedence list `c :: l` — the list class-precedence
+    shows, generic dispatch walks (`Hierarchy`) and mergeSupers built -/
+theorem gen_typep_refines (T : GClass) (o : GObj) (c : Name) (l : List Name) (k : Name)
+    (hp : T.precedence = Sym.cls c :: l.map Sym.cls ++ [Sym.standardObject, Sym.t]) :
+    IsA T o (Sym.cls k) = isA (c :: l) k := by
+  rw [isA_eq, hp]
+  have h1 : isA (c :: l) k = decide (k ∈ c :: l) := by
+    by_cases h : k ∈ c :: l
+    · simp [h, isA_iff_mem.2 h]
+    · have : ¬ isA (c :: l) k = true := fun e => h (isA_iff_mem.1 e)
+      simp [h, this]
+  rw [h1]
+  simp
+
+example : (Sym.cls 1 :: [0].map Sym.cls ++ [Sym.standardObject, Sym.t])
+    = [Sym.cls 1, Sym.cls 0, Sym.standardObject, Sym.t] := rfl
+
 /-! ## the readiness loop and redefinition -/
 
 theorem gen_makeClassesReady (fuel : Nat) (h : Heap) (hn : NodupNames h) (hfuel : nr (abs h) < fuel) :
